@@ -165,7 +165,18 @@ def get_txt_pos_ml(toks, main_lang, parms):
         if type(t) is not defs.LanguageToken:
             cur_sec.append(t)
             continue
-        if t.lang == lang_stack[-1]:
+        if t.back:
+            new_lang = lang_stack[-2] if len(lang_stack) > 1 else lang_stack[-1]
+        else:
+            new_lang = t.lang
+        if new_lang == lang_stack[-1]:
+            # no change of language, but keep the stack balanced:
+            # the token closing a scope pops what its opening has pushed
+            if t.back:
+                if len(lang_stack) > 1:
+                    lang_stack.pop()
+            elif not t.hard:
+                lang_stack.append(t.lang)
             continue
         txt, pos = get_txt_pos(cur_sec)
         cur_sec = []
